@@ -24,6 +24,47 @@ MGR = 'dht_network_manager::DhtNetworkManager'
 CLAMP = re.compile(r'::(saturating_add|saturating_sub|wrapping_add|wrapping_sub|min|max|clamp)$')
 
 
+def _const_le(prog, e, limit):
+    st = e.strip()
+    v = st.const_value()
+    if v is None and st.k == 'const' and st.d in prog.consts:
+        v = prog.const_val(st.d)
+    return isinstance(v, int) and not isinstance(v, bool) and v <= limit
+
+
+def _count_class(prog, b, e, depth):
+    """('capped' | 'uncapped' | 'local', detail) for a count expression: peer-supplied when it reads the `count` field of a
+    decoded FindNode message (directly, or through a parameter whose callers pass one)"""
+    top = e.strip()
+    if top.k == 'call' and re.search(r'::min$|cmp::min$', top.a) and any(_const_le(prog, a, 20) for a in top.b):
+        return 'capped', 'min(.., <= 20): ' + e.brief(70)
+    peer = any(x.k == 'downcast' and x.b == 'FindNode' for x in e.walk())
+    if peer:
+        return 'uncapped', 'the peer-supplied count reaches the lookup uncapped (%s): one request returns the whole routing table' % e.brief(70)
+    if _const_le(prog, e, 20):
+        return 'local', 'constant'
+    if top.k == 'param' and depth > 0:
+        pname = top.b
+        worst = ('local', 'parameter fed by local callers')
+        root = b.root
+        for cid in prog.callers_of(root):
+            cb = prog.bodies[cid]
+            for cs in cb.calls():
+                if cs.callee != root and cs.declared != root:
+                    continue
+                rb = prog.bodies.get(root)
+                idx = rb.param_index(pname) if rb is not None else None
+                if idx is None or idx - 1 >= len(cs.args):
+                    continue
+                st, d = _count_class(prog, cb, cb.expr(cs.args[idx - 1]), depth - 1)
+                if st == 'uncapped':
+                    return st, d + ' (through %s)' % root.rsplit('::', 1)[-1]
+                if st == 'capped':
+                    worst = (st, d)
+        return worst
+    return 'local', 'not derived from an inbound message'
+
+
 def run(ctx):
     prog = ctx.prog
     prog.adt(RT)
@@ -53,6 +94,25 @@ def run(ctx):
             okc = v is not None and v <= 20
         ctx.ob('CAPS', 'handle_request:count#%d' % n, okc, cs.where(), 'count handed to the table lookup = %s (must be capped at <= 20)' % detail)
     ctx.floor('CAPS', 2)
+    # closed world: wherever the crate asks the table for closest nodes with a count taken from a decoded FindNode message
+    # (any inbound handler, not only handle_request), the count is min(count, C <= 20) or a constant <= 20
+    nsite = 0
+    seen_sites = set()
+    for needle in ('find_nodes', 'find_closest_nodes'):
+        for b in prog.bodies.containing(needle):
+            for cs in b.calls(r'DhtCoreEngine::find_nodes$|KademliaRoutingTable::find_closest_nodes$'):
+                if (b.id, cs.bb) in seen_sites or len(cs.args) < 3:
+                    continue
+                seen_sites.add((b.id, cs.bb))
+                st, detail = _count_class(prog, b, b.expr(cs.args[2]), 2)
+                if st == 'local':
+                    continue
+                nsite += 1
+                k = sum(1 for o in ctx.obls if o.key.startswith('peer-count@%s' % b.root))
+                ctx.ob('CAPS', 'peer-count@%s#%d' % (b.root, k), st == 'capped', cs.where(),
+                       'count of an inbound FindNode handed to the table lookup: %s' % detail, entry=b.root)
+                ctx.touch(b)
+    ctx.floor('CAPS', 5)
     hl = prog.async_body(MGR + '::handle_lookup_request')
     ctx.touch(hl, len(hl.calls()))
     okl = False
